@@ -69,6 +69,10 @@ def minimise(chk, case, cls, execute_case):
         cand = dict(best, env={k: v for k, v in best["env"].items() if k != "warnings"})
         if test(cand):
             best = cand
+    if (best.get("env") or {}).get("numpy"):
+        cand = dict(best, env={k: v for k, v in best["env"].items() if k != "numpy"})
+        if test(cand):
+            best = cand
     if (best.get("env") or {}).get("logging", "off") != "off":
         cand = dict(best, env=dict(best["env"], logging="off"))
         if test(cand):
